@@ -263,7 +263,7 @@ static std::string caseDesc;
 static std::string framesStr(const std::vector<Frame> &g) { std::string s; for (auto &f : g) { if (!s.empty()) s += ' '; s += frameStr(f); } return s.empty() ? "-" : s; }
 
 // returns true when the oracle is satisfied; `record` = op line already written (violations are reported)
-static bool runParse(const ReqInfo &q, bool record, bool claimRx = false) {
+static bool runParse(const ReqInfo &q, bool record, bool claimRx = false, int loser = -1) {
   unsigned q0 = N->queued(); long r0 = N->refused; hsends.clear();
   unsigned srcBefore[16]; for (int i = 0; i < nDev; i++) srcBefore[i] = prevSrc[i] = N->src(i);
   N->ParseMessages();
@@ -281,7 +281,10 @@ static bool runParse(const ReqInfo &q, bool record, bool claimRx = false) {
   }
   std::string cls; bool nontriv = false;
   std::vector<Viol> v = judge(q, fresh, refusals, q0 != 0, cls, nontriv);
-  for (auto &c : claims) if (c.second && (mode == 1 || mode == 2)) { claimUntil[c.first] = g_now + 250; C.count(N->src(c.first) == 254 ? "device_driven_to_null_address" : "device_moved_to_next_address"); }
+  // a device that holds the claimed address and has the higher NAME must give the address up and claim another one (or
+  // announce that it cannot): its 250 ms window starts now, whether or not the driver took its claim frame
+  if (loser >= 0 && (mode == 1 || mode == 2)) { claimUntil[loser] = g_now + 250; C.count(N->src(loser) == 254 ? "device_driven_to_null_address" : "device_moved_to_next_address");
+    if (N->src(loser) == srcBefore[loser]) C.count("lost_claim_but_address_kept"); }   // the claim procedure itself is C03's
   if (record) {
     C.outs(std::string("- ") + framesStr(got));
     for (auto &x : v) C.fail(x.key, "%s", x.text.c_str());
@@ -400,7 +403,8 @@ static void exec(const std::string &line) {
   if (w[0] == "aclaim" && w.size() == 3) {
     unsigned src = num(w[1]) & 0xff; uint64_t nm = strtoull(w[2].c_str(), 0, 16); unsigned char b[8]; for (int i = 0; i < 8; i++) b[i] = (unsigned char)(nm >> (8 * i));
     N->rx((6UL << 26) | (0xEEUL << 16) | (0xFFUL << 8) | src, 8, b);
-    ReqInfo q{false, 0, 0, 0, true}; runParse(q, true, true); return;
+    int loser = -1; if (src != 254) { int d = devOfSrc(src); if (d >= 0 && N->src(d) == src && nm < N->name(d)) loser = d; }
+    ReqInfo q{false, 0, 0, 0, true}; runParse(q, true, true, loser); return;
   }
   if (w[0] == "rq" && w.size() == 4) {
     unsigned requester = num(w[1]) & 0xff, dst = num(w[2]) & 0xff; unsigned long P = num(w[3]) & 0xffffffUL;
